@@ -70,3 +70,64 @@ Proof.
     split; [vm_compute; repeat constructor; discriminate|]. split; vm_compute; reflexivity.
   - vm_compute. repeat split; reflexivity.
 Qed.
+
+(* ------------------------------------------------------------------ the other entry points *)
+Require Import ReaderMoreProofs.
+
+(* helper.go:ReadMessage called repeatedly on one connection ([read_messages]:
+   every call builds a fresh Reader with CheckUTF8, no size limit, no extension
+   and the read-all OnIntermediate on what the previous call left in the source;
+   the events of the call that ends in an error are kept, exactly as ReadMessage
+   returns the control frames collected so far together with the error): for
+   EVERY frame sequence, chunking and buffer sizes the concatenated results are
+   exactly the spec's events and the final error has the spec's class *)
+Theorem C04_read_message_meets_spec : forall fs state s bufs fuel,
+  wf_cfg (mkCfg state true 0 false) -> Forall wf_sframe fs -> wf_src s -> tl s = TEOF -> flat s = wire fs ->
+  (length (wire fs) + 2 <= fuel)%nat ->
+  let '(evs, e) := read_messages fuel bufs s state [] in
+  reader_monitor (mkCfg state true 0 false) true fs evs None e = true.
+Proof. exact read_message_meets_spec. Qed.
+Print Assumptions C04_read_message_meets_spec.
+
+(* helpers that skip or discard messages ([drive_pat]: per message the caller
+   reads it to io.EOF, calls Discard at once, or reads one buffer and then
+   Discards; [pat] is used round-robin). [pat_monitor] (ReaderMoreProofs.v):
+   the final error is a clean io.EOF and the logged events are, in stream order,
+   EVERY intermediate control event of the spec and of the spec's messages
+   exactly those whose action was ARead — an APartial message is there exactly
+   when the single Read happened to finish it (both accepted), an ADiscard
+   message never — each with the spec's opcode, exact payload and flag, and
+   nothing else. So on every valid complete stream, every chunking, all buffer
+   sizes and every action pattern: skipped bytes never leak into a later
+   message, and skipping never loses a control frame or the clean end *)
+Theorem C04_discard_patterns : forall c fs s bufs pat fuel,
+  wf_cfg c -> Forall wf_sframe fs -> sr_out (spec_run c 0 None [] fs) = OClean ->
+  wf_src s -> tl s = TEOF -> flat s = wire fs -> (length (wire fs) + 2 <= fuel)%nat ->
+  let d := drive_pat fuel bufs pat pat
+             (new_reader s (c_state c) false (c_check_utf8 c) (c_max c) (c_ext c) CbReadAll) in
+  pat_monitor c pat fs (dr_events d) (dr_err d) = true.
+Proof. exact discard_patterns. Qed.
+Print Assumptions C04_discard_patterns.
+
+Example C04_discard_patterns_nonvacuous :
+  let k1 := [17; 34; 51; 68] in let k2 := [255; 0; 128; 7] in
+  let fs := [mkSF false 4 1 (Some k1) [226; 130];            (* text, fragmented: discarded *)
+             mkSF true 0 9 (Some k2) [1; 2; 3];               (* ping inside it: still handed to the callback *)
+             mkSF true 0 0 (Some k1) [172; 104; 105];
+             mkSF true 0 2 (Some k2) [7; 8; 9];               (* read *)
+             mkSF false 0 2 (Some k2) [0; 255; 254; 1; 2];    (* one Read, rest discarded *)
+             mkSF true 0 0 (Some k2) [3; 4];
+             mkSF true 0 1 (Some k2) [65; 66]] in             (* discarded *)
+  let c := mkCfg 5 true 0 true in
+  let pat := [ADiscard; ARead; APartial] in
+  let s := mkSrc (chunk_by [3; 1; 7; 2; 2; 9; 1; 1; 4; 30] (wire fs)) TEOF in
+  let d := drive_pat (length (wire fs) + 2) [2; 5; 1] pat pat
+             (new_reader s (c_state c) false (c_check_utf8 c) (c_max c) (c_ext c) CbReadAll) in
+  sr_out (spec_run c 0 None [] fs) = OClean /\
+  pat_monitor c pat fs (dr_events d) (dr_err d) = true /\
+  dr_events d = [mkEv 9 [1; 2; 3] true true; mkEv 2 [7; 8; 9] false false] /\
+  (* the monitor is not vacuous: it refuses a leaked or a lost event *)
+  pat_monitor c pat fs (dr_events d ++ [mkEv 1 [65; 66] false false]) (dr_err d) = false /\
+  pat_monitor c pat fs [mkEv 2 [7; 8; 9] false false] (dr_err d) = false /\
+  pat_monitor c pat fs [mkEv 9 [1; 2; 3] true true; mkEv 2 [8; 9] false false] (dr_err d) = false.
+Proof. vm_compute. repeat split; reflexivity. Qed.
